@@ -710,7 +710,7 @@ func vC10RecycleUDP(t *testing.T, s *Server, r *rand.Rand, n int) *vC10Stats {
 		if q.exp == vC10ExpSilent {
 			continue
 		}
-		_ = conns[ci].SetReadDeadline(time.Now().Add(400 * time.Millisecond))
+		_ = conns[ci].SetReadDeadline(time.Now().Add(250 * time.Millisecond))
 		m, _, err := conns[ci].ReadFromUDPAddrPort(buf)
 		if err != nil {
 			atomic.AddInt64(&st.missing, 1)
@@ -857,6 +857,7 @@ func TestVerifC10Stress(t *testing.T) {
 			{"stress-udp-stub-inline-mixed-readers", true, true, 1, 1, 8, 24, 48},
 		}
 		sentinel("stress-stub-engines")
+		tA := time.Now()
 		ustats := make([]*vC10Stats, len(ucfgs))
 		var awg sync.WaitGroup
 		for ci, uc := range ucfgs {
@@ -909,11 +910,12 @@ func TestVerifC10Stress(t *testing.T) {
 		for ci, uc := range ucfgs {
 			emit(uc.name, ustats[ci], map[string]any{"workers": uc.workers, "queue": uc.queue, "slab_cap": uc.slabs, "clients": uc.clients})
 		}
-		emit("stress-tcp-stub", tcpSt, map[string]any{"conn_cap": 12, "small_slabs": 3, "large_slabs": 1, "clients": 16})
+		emit("stress-tcp-stub", tcpSt, map[string]any{"conn_cap": 12, "small_slabs": 3, "large_slabs": 1, "clients": 16, "part_a_ms": time.Since(tA).Milliseconds()})
 
 		// ---- B: the real Server and default chain in front of a stand-in resolver
 		{
 			sentinel("stress-chain")
+			tB := time.Now()
 			witness := &vC10Witness{}
 			middleware.Reset()
 			defaults.RegisterUpTo("resolver")
@@ -944,7 +946,8 @@ func TestVerifC10Stress(t *testing.T) {
 			rig.stop()
 			stopTCP()
 			emit("stress-udp-chain", ust, map[string]any{"inline_ready": s.InlineReady(), "resolver_calls": witness.calls.Load(), "clients": 20})
-			emit("stress-tcp-chain", tst, map[string]any{"clients": 8})
+			emit("stress-tcp-chain", tst, map[string]any{"clients": 8, "part_b_ms": time.Since(tB).Milliseconds()})
+			tC := time.Now()
 
 			// ---- C: the same Server, one query at a time, on engines with so few slabs
 			// that consecutive clients are certain to be served on the same recycled slab
@@ -952,9 +955,10 @@ func TestVerifC10Stress(t *testing.T) {
 			// clients alternating and every query's OPT differing from the previous one's.
 			sentinel("recycle-chain")
 			rst := vC10RecycleUDP(t, s, rand.New(rand.NewSource(base+40000)), 160)
-			emit("recycle-udp-chain", rst, map[string]any{"slab_cap": 2, "clients": 4, "sequential": true})
+			emit("recycle-udp-chain", rst, map[string]any{"slab_cap": 2, "clients": 4, "sequential": true, "part_c_udp_ms": time.Since(tC).Milliseconds()})
+			tC = time.Now()
 			rtt := vC10RecycleTCP(t, s, rand.New(rand.NewSource(base+41000)), 120)
-			emit("recycle-tcp-chain", rtt, map[string]any{"small_slabs": 1, "connections": 3, "sequential": true})
+			emit("recycle-tcp-chain", rtt, map[string]any{"small_slabs": 1, "connections": 3, "sequential": true, "part_c_tcp_ms": time.Since(tC).Milliseconds()})
 			_ = f.Truncate(off)
 			middleware.Reset()
 		}
